@@ -39,6 +39,11 @@ CLAIMED = {
          "A raw TCP client writes generated header blocks (every sensitive and hop-by-hop name in random letter case, 0..3 occurrences, empty values; up to 40 arbitrary token-named headers with repeated names, obs-text and tabs; pre-existing Via / X-Forwarded-* / X-Real-IP on one or several lines) on proxy, provider, Anthropic passthrough and translated routes of both engines, with and without failover from a refusing endpoint; the raw backend's received header block must contain no sensitive or hop-by-hop header, every other client header with the same values in the same per-name order, nothing invented beyond the headers Olla/transport legitimately add, and every pre-existing forwarding value still in place before Olla's own element.",
          "Headers nominated by the client's Connection value are not asserted; names compared case-insensitively.",
          "DESIGN.md §3 C15"),
+ "C16": ("exploration",
+         "rapid-generated raw request targets and endpoint configurations through the full stack; decoy listener + containment oracle on the backend's request line; differential for clean targets",
+         "Request targets are written verbatim by a raw client (dot segments, single/double percent-encodings, encoded slashes and backslashes, //, ;params, authority tricks, absolute-form targets and query values naming a decoy listener) against endpoints with empty, '/', and nested base paths, preserve_path on/off, two route prefixes and both engines; the decoy must never be contacted, the raw backend's request line must stay under the base path when preserve_path is set, clean targets must arrive at exactly base+remaining (or remaining) with the query verbatim; generated relative/absolute health_check_url / model_url values are resolved by LoadFromConfig and must keep scheme/host and stay under the base path.",
+         "Unclean targets may be answered by the mux without backend contact (not a violation); Host header is not asserted; one listed known finding (percent-encoded dot segments under preserve_path) is tolerated by exact signature.",
+         "DESIGN.md §3 C16"),
  "C06": ("exploration",
          "rapid-generated endpoint lists against a reference selector model; concurrent fairness counting",
          "Selectors obtained from balancer.Factory over a real stats collector are judged against reference rules on generated lists (n<=5, all statuses, priorities, gauge vectors) sequentially and from up to 32 goroutines: member-or-error, top-tier only and every tier member reached, exact k-per-member round-robin fairness over any window, minimal gauge for least-connections.",
